@@ -414,3 +414,47 @@ func TenureBesideFarTimers(L time.Duration) (out Outcome) {
 	la.Unlock()
 	return out
 }
+
+// UnlockFaultThenRelock: A's Unlock loses its Delete - the reply (executed, error reported) or the request (not
+// executed, the record stays until its lease runs out). B (another provider) acquires and holds. Then A tries the
+// same Locker again with a context of two leases: it must not get the lock while B holds it. Decided logically:
+// "A acquired" is observed while B has not unlocked.
+func UnlockFaultThenRelock(L time.Duration, replyLost bool) (out Outcome) {
+	inner := inmem.New()
+	tA := New(inner)
+	pa := dist.NewKvsLockProvider(tA, "/lt/")
+	pb := dist.NewKvsLockProvider(inner, "/lt/")
+	for _, p := range []dist.LockProvider{pa, pb} {
+		dist.VerifSetLeaseTTL(p, L)
+		defer p.Shutdown()
+	}
+	name := "Delete#1:before"
+	if replyLost {
+		name = "Delete#1:after"
+	}
+	g := tA.Gate(name)
+	g.Fail = true
+	close(g.Release)
+	la, lb := pa.NewLocker("x"), pb.NewLocker("x")
+	la.Lock()
+	la.Unlock() // the Delete is lost
+	lb.Lock()   // at once (reply lost) or after the left-over record's lease ran out (request lost)
+	ctx, cancel := context.WithTimeout(context.Background(), 2*L)
+	err := la.LockWithCtx(ctx)
+	cancel()
+	if err == nil {
+		out.Sig = "two-holders-after-a-lost-delete"
+		what := "request (not executed: the record stayed until its lease ran out)"
+		if replyLost {
+			what = "reply (executed, but an error was reported)"
+		}
+		out.What = fmt.Sprintf("lease %v: A's Unlock lost the %s of its Delete; B acquired afterwards and holds; A's next LockWithCtx on the same Locker returned nil although B has not unlocked; storage calls of A: %v", L, what, tA.Events())
+		la.Unlock()
+	} else if la.TryLock(context.Background()) {
+		out.Sig = "two-holders-after-a-lost-delete"
+		out.What = fmt.Sprintf("lease %v: A's Unlock lost its Delete; B acquired afterwards and holds; A's TryLock on the same Locker returned true although B has not unlocked", L)
+		la.Unlock()
+	}
+	lb.Unlock()
+	return out
+}
